@@ -54,16 +54,28 @@ Lemma C02_list_of_enum_refused :
   echo ser_id deser_id true (TList (TEnum [[82;69;68]%N])) (VList [VEnum [82;69;68]%N]) = Reject.
 Proof. vm_compute. reflexivity. Qed.
 
-(* 7. the optional marker INSIDE an Annotated wrapper,  Annotated[X | None, meta]:  _is_optional_type does not look
-      through Annotated, so the parameter is not optional (None is refused) and _deserialize_value, which strips
-      Optional first and Annotated second, is left with the Union and converts nothing back: an Enum member
-      arrives as its name, a dict as a list of pairs.  (Annotated[X, meta] | None is handled: P_C02.ex_spellings.) *)
-Lemma C02_optional_inside_annotated_refuted :
+(* 7. (repaired in the source, e0af9e7; kept as the record of the OLD shape of _is_optional_type, which did not look
+      through Annotated.)  With the old test, Annotated[X | None, meta] is not optional: None is refused, and
+      _deserialize_value is left with the Union and converts nothing back, so an Enum member arrives as its name and a
+      dict as a list of pairs.  The model now follows the repaired shape (M_Values.is_opt; tie/T_Values.v demands
+      gen_opt_through_ann = true), under which P_C02.ex_spellings shows the same inputs echoed exactly. *)
+Definition is_opt_old (t : ty) : ty * bool := match t with TOpt t' => (t', true) | _ => (t, false) end.
+Definition param_path_old (t : ty) (v : value) : outcome :=
+  let '(inner, nullable) := is_opt_old t in
+  let a := if is_data (unwrap_ann inner) then ABin else infer inner in
+  if is_none v && negb nullable then Reject
+  else bind (arrow_rt a (convert_for_arrow ser_id v)) (fun x =>
+         if is_none x then (if nullable then Accept VNone else Reject)
+         else match unwrap_ann inner with                         (* _deserialize_value on the old inner type *)
+              | TEnum names => match x with VStr s => if name_in s names then Accept (VEnum s) else Reject | _ => Reject end
+              | TMap _ _ => match x with VList l => match dict_of_pairs [] l with Some d => Accept (VDict d) | None => Reject end | _ => Accept x end
+              | _ => Accept x
+              end).
+Lemma C02_optional_inside_annotated_old_shape_refuted :
   let e := TEnum [[82;69;68]%N] in
-  has_type (TAnn (TOpt e)) (VEnum [82;69;68]%N) = true /\
-  pp (TAnn (TOpt e)) (VEnum [82;69;68]%N) = Accept (VStr [82;69;68]%N) /\
-  has_type (TAnn (TOpt e)) VNone = true /\
-  pp (TAnn (TOpt e)) VNone = Reject /\
-  pp (TAnn (TOpt (TMap TStr (TInt true 64)))) (VDict [(VStr [97%N], VInt 1)]) = Accept (VList [VTuple [VStr [97%N]; VInt 1]]) /\
-  supported (TAnn (TOpt e)) = false.
+  param_path_old (TAnn (TOpt e)) (VEnum [82;69;68]%N) = Accept (VStr [82;69;68]%N) /\
+  param_path_old (TAnn (TOpt e)) VNone = Reject /\
+  param_path_old (TAnn (TOpt (TMap TStr (TInt true 64)))) (VDict [(VStr [97%N], VInt 1)]) = Accept (VList [VTuple [VStr [97%N]; VInt 1]]) /\
+  (* the repaired shape *)
+  pp (TAnn (TOpt e)) (VEnum [82;69;68]%N) = Accept (VEnum [82;69;68]%N) /\ pp (TAnn (TOpt e)) VNone = Accept VNone.
 Proof. vm_compute. repeat split; reflexivity. Qed.
